@@ -146,8 +146,10 @@ struct Binding {
 }
 
 fn execute(p: &Program, ctx: &Context) -> Outcome {
-    match catch_unwind(AssertUnwindSafe(|| p.execute(ctx))) {
-        Ok(r) => Outcome::of(&r),
+    // taking the picture of the result is inside the guard too: a tree with memory-unsafe value
+    // handling can hand out values whose mere formatting panics
+    match catch_unwind(AssertUnwindSafe(|| Outcome::of(&p.execute(ctx)))) {
+        Ok(o) => o,
         Err(payload) => Outcome::Panic(panic_text(payload)),
     }
 }
@@ -168,15 +170,16 @@ fn value_in_error(e: &cel_interpreter::ExecutionError) -> Option<Value> {
 }
 
 fn execute_keep(p: &Program, ctx: &Context) -> (Outcome, Option<Value>) {
-    match catch_unwind(AssertUnwindSafe(|| p.execute(ctx))) {
-        Ok(r) => {
-            let o = Outcome::of(&r);
-            let keep = match &r {
-                Ok(_) => None,
-                Err(e) => value_in_error(e),
-            };
-            (o, r.ok().or(keep))
-        }
+    match catch_unwind(AssertUnwindSafe(|| {
+        let r = p.execute(ctx);
+        let o = Outcome::of(&r);
+        let keep = match &r {
+            Ok(_) => None,
+            Err(e) => value_in_error(e),
+        };
+        (o, r.ok().or(keep))
+    })) {
+        Ok(x) => x,
         Err(payload) => (Outcome::Panic(panic_text(payload)), None),
     }
 }
@@ -826,13 +829,13 @@ fn run_thread<'a, 'w>(
         },
         Err(p) => {
             sh.report(ViolationInfo {
-                invariant: "harness".into(),
+                invariant: "I4-unreadable".into(),
                 phase: phase.name().into(),
                 thread: tid,
                 op_index: 0,
-                expected: String::new(),
+                expected: "every value obtained from the library can be inspected (compared, formatted, cloned, dropped)".into(),
                 got: panic_text(p),
-                detail: "panic escaped the per-execution catch_unwind (in harness or oracle code)".into(),
+                detail: "inspecting a value or the context outside of any execution panicked: in a memory-safe tree these are pure traversals that cannot panic (never observed on the unchanged tree), so a buffer reachable from a previously obtained value or from the context was corrupted".into(),
             });
             if let Some(s) = &sched {
                 s.release_all();
@@ -895,7 +898,30 @@ fn merge(into: &mut RunStats, from: &RunStats) {
     into.invariant_checks += from.invariant_checks;
 }
 
+/// `run_workload_inner` with the main thread's own oracle code (prologue, final checks, epilogue) guarded
+/// the same way as the simulated threads' (see `I4-unreadable`).
 pub fn run_workload(w: &Workload, opts: &RunOptions) -> RunResult {
+    match catch_unwind(AssertUnwindSafe(|| run_workload_inner(w, opts))) {
+        Ok(r) => r,
+        Err(p) => RunResult {
+            violation: Some(ViolationInfo {
+                invariant: "I4-unreadable".into(),
+                phase: "main-thread oracle".into(),
+                thread: 0,
+                op_index: 0,
+                expected: "every value obtained from the library can be inspected (compared, formatted, cloned, dropped)".into(),
+                got: panic_text(p),
+                detail: "inspecting the context or a result on the main thread panicked; in a memory-safe tree these are pure traversals that cannot panic".into(),
+            }),
+            stats: RunStats::default(),
+            trace: vec![],
+            event_log: vec![],
+            harness_error: None,
+        },
+    }
+}
+
+fn run_workload_inner(w: &Workload, opts: &RunOptions) -> RunResult {
     tls::install_hooks();
     cel_interpreter::verif::set_hash_seed(w.knobs.hash_seed);
     let compiled = match compile_all(w, opts.use_ast) {
@@ -992,9 +1018,11 @@ pub fn run_workload(w: &Workload, opts: &RunOptions) -> RunResult {
                         }
                         if let Policy::Pct { depth, horizon: 0 } = spec.policy {
                             // horizon not fixed by the workload: the solo step count (deterministic)
+                            // decisions to expect: one per hook point, plus one per `fine_gap` edges
+                            let edge_decisions = if spec.fine_gap > 0 { stats.solo_edges / spec.fine_gap as u64 } else { 0 };
                             spec.policy = Policy::Pct {
                                 depth,
-                                horizon: stats.solo_steps.max(1),
+                                horizon: (stats.solo_steps + edge_decisions).max(1),
                             };
                         }
                         Source::Policy(spec)
